@@ -7,7 +7,7 @@
     Part 3: executions, corollaries. *)
 From stdpp Require Import gmap list numbers sorting.
 From Coq Require Import ZifyN ZifyNat ZifyBool Lia.
-From Drummer.Model Require Import DB Sched Fleet.
+From Drummer.Model Require Import DB Sched Fleet FleetRun.
 From Drummer.Proofs Require Import DBProofs DBViewProofs.
 Local Open Scope N_scope.
 Notation hist_of := Fleet.hist_of.   (* DBViewProofs has another [hist_of] *)
@@ -817,7 +817,7 @@ Proof.
   assert (Hqbox : in_box d hosts (q :: rest) q) by (right; right; right; left).
   pose proof (li_reqs _ _ _ _ _ HI q Hqbox) as [Hval Hreq].
   unfold exec_req. cbn [fst snd]. destruct (hosts !! h) as [fh|] eqn:Eh.
-  2:{ intros [= <-]. cbn. by eapply LI_shrink. }
+  2:{ intros [= <-]. cbn. exact (LI_shrink _ _ _ _ _ _ Hsub HI). }
   remember (q_type q) as ty eqn:Ety. destruct ty.
   - (* CREATE *)
     destruct Hreq as [Hj Hborn].
@@ -825,7 +825,7 @@ Proof.
     + (* join *)
       destruct (fh_reps fh !! (q_shard q, q_inst q)) as [lr|] eqn:Ek; intros [= <-].
       * eapply LI_shrink; [exact Hsub|]. by apply start_existing_inv.
-      * destruct (busy (fh_reps fh) (q_shard q)); cbn [fst snd]; [by eapply LI_shrink|].
+      * destruct (busy (fh_reps fh) (q_shard q)); cbn [fst snd]; [exact (LI_shrink _ _ _ _ _ _ Hsub HI)|].
         eapply LI_shrink; [exact Hsub|]. eapply LI_set_reps; [exact Eh| |exact HI].
         intros k lr' Hk. destruct (decide (k = (q_shard q, q_inst q))) as [->|Hne].
         -- rewrite lookup_insert in Hk. injection Hk as <-. destruct (Hborn eq_refl) as (h0 & c & Hh0 & Hc & Hb).
@@ -834,12 +834,12 @@ Proof.
     + (* restore *)
       destruct (fh_reps fh !! (q_shard q, q_inst q)) as [lr|] eqn:Ek; intros [= <-].
       * eapply LI_shrink; [exact Hsub|]. by apply start_existing_inv.
-      * cbn. by eapply LI_shrink.
+      * cbn. exact (LI_shrink _ _ _ _ _ _ Hsub HI).
   - (* DELETE *)
     destruct Hreq as (y & Hm & Hrest). rewrite Hm. intros [= <-].
-    destruct (hist_of hist (q_shard q)) as [|[v M] hs0] eqn:Ehs; cbn [fst snd]; [by eapply LI_shrink|].
-    destruct (cc_ready ccok hosts (fh_reps fh) (q_shard q) v M (q_ccid q) && is_member M y) eqn:Ec; cbn [fst snd];
-      [|by eapply LI_shrink].
+    destruct (hist_of hist (q_shard q)) as [|[v M] hs0] eqn:Ehs; cbn [fst snd]; [exact (LI_shrink _ _ _ _ _ _ Hsub HI)|].
+    match goal with |- context [if ?b then _ else _] => destruct b eqn:Ec end; cbn [fst snd] in *;
+      [|exact (LI_shrink _ _ _ _ _ _ Hsub HI)].
     apply andb_true_iff in Ec as [Hcc Hmem]. unfold cc_ready in Hcc.
     apply andb_true_iff in Hcc as [Hcc _]. apply andb_true_iff in Hcc as [_ Hfence]. apply N.eqb_eq in Hfence.
     assert (Hs : hist !! q_shard q = Some ((v, M) :: hs0)).
@@ -859,9 +859,9 @@ Proof.
     intros k lr Hk. apply lookup_delete_Some in Hk as [_ Hk]. eapply (li_reps _ _ _ _ _ HI'); eauto.
   - (* ADD *)
     destruct Hreq as (x & t & Hm & Ha & Hx & Hrest). rewrite Hm, Ha. intros [= <-].
-    destruct (hist_of hist (q_shard q)) as [|[v M] hs0] eqn:Ehs; cbn [fst snd]; [by eapply LI_shrink|].
-    destruct (cc_ready ccok hosts (fh_reps fh) (q_shard q) v M (q_ccid q) && negb (used_in ((v, M) :: hs0) x)) eqn:Ec; cbn [fst snd];
-      [|by eapply LI_shrink].
+    destruct (hist_of hist (q_shard q)) as [|[v M] hs0] eqn:Ehs; cbn [fst snd]; [exact (LI_shrink _ _ _ _ _ _ Hsub HI)|].
+    match goal with |- context [if ?b then _ else _] => destruct b eqn:Ec end; cbn [fst snd] in *;
+      [|exact (LI_shrink _ _ _ _ _ _ Hsub HI)].
     apply andb_true_iff in Ec as [Hcc Hnu]. apply negb_true_iff in Hnu. unfold cc_ready in Hcc.
     apply andb_true_iff in Hcc as [Hcc _]. apply andb_true_iff in Hcc as [_ Hfence]. apply N.eqb_eq in Hfence.
     assert (Hs : hist !! q_shard q = Some ((v, M) :: hs0)).
@@ -887,8 +887,8 @@ Proof.
     + left. apply is_member_true in Hr as [a Hr]. rewrite lookup_insert_ne in Hr by done. apply is_member_true. by eexists.
   - (* KILL *)
     destruct Hreq as (y & Hm & _). rewrite Hm. intros [= <-].
-    destruct (fh_reps fh !! (q_shard q, y)) as [lr|] eqn:Ek; [|cbn; by eapply LI_shrink].
-    destruct (lr_running lr); cbn [fst snd]; [|by eapply LI_shrink].
+    destruct (fh_reps fh !! (q_shard q, y)) as [lr|] eqn:Ek; [|cbn; exact (LI_shrink _ _ _ _ _ _ Hsub HI)].
+    destruct (lr_running lr); cbn [fst snd]; [|exact (LI_shrink _ _ _ _ _ _ Hsub HI)].
     eapply LI_shrink; [exact Hsub|]. eapply LI_set_reps; [exact Eh| |exact HI].
     intros k lr' Hk. apply lookup_delete_Some in Hk as [_ Hk]. eapply li_reps; eauto.
 Qed.
@@ -1192,3 +1192,210 @@ Proof.
   exfalso. eapply exec_all_no_panic; [|exact Ex]. by apply exec_start.
 Qed.
 End Steps.
+
+(** * Part 3: all events, executions, consequences *)
+Section Main.
+Variable P : params.
+
+Theorem step_inv st ev st' : LoopInv st → fresh_ok st ev → fstep P st ev = FOk st' → LoopInv st'.
+Proof.
+  intros HI Hfr Hs. destruct ev as [|h plog|h lost|o|h ccok|h|h|h s r v].
+  - by eapply step_tick.
+  - by eapply step_snap.
+  - by eapply step_deliver.
+  - by eapply step_schedule.
+  - by eapply step_exec.
+  - by eapply step_crash.
+  - by eapply step_restart.
+  - by eapply step_learn.
+Qed.
+
+Theorem step_no_panic st ev : LoopInv st → fresh_ok st ev → fstep P st ev ≠ FPanic.
+Proof.
+  intros HI Hfr. destruct ev as [|h plog|h lost|o|h ccok|h|h|h s r v].
+  - by apply step_tick_no_panic.
+  - cbn. destruct (f_hosts st !! h) as [fh|]; [|done]. by destruct (fh_up fh).
+  - by apply step_deliver_no_panic.
+  - by apply step_schedule_no_panic.
+  - by apply step_exec_no_panic.
+  - cbn. destruct (f_hosts st !! h) as [fh|]; [|done]. by destruct (fh_up fh).
+  - cbn. destruct (f_hosts st !! h) as [fh|]; [|done]. by destruct (fh_up fh).
+  - cbn. destruct (f_hosts st !! h) as [fh|]; [|done]. destruct (fh_reps fh !! (s, r)); [|done]. by destruct (_ && _ && _ && _).
+Qed.
+
+(** the [fresh_id] hypothesis along an execution (events that are not enabled are skipped, as in [steps]) *)
+Fixpoint fresh_run (st : fstate) (evs : list event) : Prop :=
+  match evs with
+  | [] => True
+  | ev :: evs' =>
+    fresh_ok st ev ∧
+    match fstep P st ev with
+    | FOk st' => fresh_run st' evs'
+    | FDisabled => fresh_run st evs'
+    | FPanic => True
+    end
+  end.
+
+Theorem run_inv evs : ∀ st, LoopInv st → fresh_run st evs → ∃ st', steps P st evs = Some st' ∧ LoopInv st'.
+Proof.
+  induction evs as [|ev evs IH]; intros st HI Hfr; cbn [steps]; [by exists st|].
+  destruct Hfr as [Hf1 Hfr]. pose proof (step_no_panic st ev HI Hf1) as Hnp.
+  destruct (fstep P st ev) as [st1| |] eqn:E; [|by apply IH|done].
+  apply IH; [|done]. by eapply step_inv.
+Qed.
+End Main.
+
+(** ** the state the loop starts from: the initial launch has completed *)
+Record init_ok (st : fstate) : Prop := mkInitOk {
+  io_failed : d_failed (f_db st) = false;
+  io_deadline : d_deadline (f_db st) = 0;
+  io_defined : ∀ s, is_Some (d_shards (f_db st) !! s) → is_Some (f_hist st !! s);
+  io_shards : ∀ s h, f_hist st !! s = Some h →
+    ∃ sd e c, d_shards (f_db st) !! s = Some sd ∧ h = [e] ∧ d_view (f_db st) !! s = Some c ∧
+              s_cci c = e.1 ∧ r_addr <$> s_reps c = e.2 ∧ mem_ok (length (sd_members sd)) e.2 ∧
+              ∀ rid, is_member e.2 rid = true → rid ∈ f_seen st;
+  io_view : ∀ s c, d_view (f_db st) !! s = Some c →
+    is_Some (f_hist st !! s) ∧ s_id c = s ∧ ∀ rid n, s_reps c !! rid = Some n → r_id n = rid ∧ r_shard n = s;
+  io_synced : hosts_synced (f_db st);
+  io_reps : ∀ a fh k lr, f_hosts st !! a = Some fh → fh_reps fh !! k = Some lr →
+    ∃ e, f_hist st !! k.1 = Some [e] ∧ is_member e.2 k.2 = true ∧ lr_ver lr = e.1;
+  io_quiet : ∀ a fh, f_hosts st !! a = Some fh → fh_queue fh = [] ∧ fh_out fh = None;
+  io_boxes : d_requests (f_db st) = ∅ ∧ d_outgoing (f_db st) = ∅ ∧ d_kill (f_db st) = [] }.
+
+Theorem init_inv st : init_ok st → LoopInv st.
+Proof.
+  intros [Hfl Hd Hdef Hsh Hview Hsync Hreps Hquiet (Hrq & Hout & Hkill)].
+  assert (Hnobox : ∀ q, ¬ in_box (f_db st) (f_hosts st) [] q).
+  { intros q [(a & qs & Hl & _)|[(a & qs & Hl & _)|[(a & fh & Ha & Hin)|Hin]]].
+    - rewrite Hrq in Hl. by rewrite lookup_empty in Hl.
+    - rewrite Hout in Hl. by rewrite lookup_empty in Hl.
+    - destruct (Hquiet _ _ Ha) as [Hq _]. rewrite Hq in Hin. by apply elem_of_nil in Hin.
+    - by apply elem_of_nil in Hin. }
+  split.
+  - done.
+  - done.
+  - intros s h Hs. destruct (Hsh s h Hs) as (sd & e & c & Hsd & -> & _ & _ & _ & Hm & _).
+    destruct e as [v M]. apply hw_init. unfold shard_size. by rewrite Hsd.
+  - intros s [h Hs]. destruct (Hsh s h Hs) as (sd & e & c & _ & _ & Hc & _). by eexists.
+  - intros s c Hc. destruct (Hview s c Hc) as ([h Hs] & Hid & Hids).
+    destruct (Hsh s h Hs) as (sd & e & c' & _ & -> & Hc' & Hcci & Haddr & _). assert (c' = c) as -> by congruence.
+    split; [done|]. split; [|done]. unfold Hf, hist_of. rewrite Hs. cbn. rewrite Hcci, N.eqb_refl. by rewrite Haddr.
+  - done.
+  - intros a fh k lr Ha Hk. destruct (Hreps a fh k lr Ha Hk) as (e & Hs & Hm & Hver).
+    destruct (Hsh _ _ Hs) as (sd & e' & c & _ & [= <-] & Hc & Hcci & _).
+    exists [e], c. split; [done|]. split; [done|]. split.
+    + right. rewrite Hver. cbn. rewrite N.eqb_refl. by eexists.
+    + exists e.1, e.2. cbn. rewrite N.eqb_refl. split; [done|]. split; [done|]. lia.
+  - intros a fh r Ha Hr. destruct (Hquiet _ _ Ha) as [_ Ho]. congruence.
+  - intros q Hq. by destruct (Hnobox q).
+  - intros q q' Hq. by destruct (Hnobox q).
+  - intros k Hk. rewrite Hkill in Hk. by apply elem_of_nil in Hk.
+  - intros s h rid Hs Hu. destruct (Hsh s h Hs) as (sd & e & c & _ & -> & _ & _ & _ & _ & Hseen).
+    apply Hseen. unfold used_in in Hu. cbn in Hu. by rewrite orb_false_r in Hu.
+Qed.
+
+(** ** consequences (C02 / C11, closed loop) *)
+Lemma inv_surplus st s h e :
+  LoopInv st → f_hist st !! s = Some h → e ∈ h →
+  (shard_size (f_db st) s ≤ size e.2 ∧ size e.2 ≤ shard_size (f_db st) s + 1)%nat.
+Proof. intros HI Hs He. by destruct (hist_wf_mem_ok _ _ (li_hist _ _ _ _ _ HI s h Hs) e He) as [Hsz _]. Qed.
+
+Lemma inv_no_colocation st s h e r1 r2 a :
+  LoopInv st → f_hist st !! s = Some h → e ∈ h → e.2 !! r1 = Some a → e.2 !! r2 = Some a → r1 = r2.
+Proof. intros HI Hs He. destruct (hist_wf_mem_ok _ _ (li_hist _ _ _ _ _ HI s h Hs) e He) as [_ Hinj]. apply Hinj. Qed.
+
+Definition boxed (st : fstate) (q : request) : Prop := in_box (f_db st) (f_hosts st) [] q.
+
+Lemma inv_never_member st q y :
+  LoopInv st → boxed st q → is_kill q = true → y ∈ q_members q →
+  is_member (cur_members (hist_of (f_hist st) (q_shard q))) y = false.
+Proof.
+  intros HI Hq Hk Hy. destruct (li_reqs _ _ _ _ _ HI q Hq) as [_ Hr]. unfold is_kill in Hk.
+  destruct (q_type q); try done. destruct Hr as (y' & Hm & Hd). rewrite Hm in Hy. apply elem_of_list_singleton in Hy as ->.
+  unfold hist_of. destruct (f_hist st !! q_shard q) as [h|] eqn:E; [|done]. cbn. by destruct (Hd h E).
+Qed.
+
+Lemma inv_kill_list st k :
+  LoopInv st → k ∈ d_kill (f_db st) → is_member (cur_members (hist_of (f_hist st) (k_shard k))) (k_replica k) = false.
+Proof.
+  intros HI Hk. pose proof (li_kill _ _ _ _ _ HI k Hk) as Hd.
+  unfold hist_of. destruct (f_hist st !! k_shard k) as [h|] eqn:E; [|done]. cbn. by destruct (Hd h E).
+Qed.
+
+(** ** the fence: a membership change computed from an older membership has no effect *)
+Lemma fence_effect h ccok hosts hist q :
+  (is_add q = true ∨ is_delete q = true) → q_ccid q ≠ cur_version (hist_of hist (q_shard q)) →
+  exec_req h ccok (hosts, hist) q = Some (hosts, hist) ∨ exec_req h ccok (hosts, hist) q = None.
+Proof.
+  intros Hty Hne. unfold exec_req. cbn [fst snd]. destruct (hosts !! h) as [fh|]; [|by left].
+  remember (hist_of hist (q_shard q)) as hs eqn:E.
+  assert (Hcc : ∀ e hs0 M, hs = e :: hs0 → cc_ready ccok hosts (fh_reps fh) (q_shard q) e.1 M (q_ccid q) = false).
+  { intros e hs0 M ->. unfold cc_ready. cbn in Hne. apply N.eqb_neq in Hne. rewrite Hne. by rewrite andb_false_r. }
+  unfold is_add, is_delete in Hty. destruct (q_type q); try (by destruct Hty).
+  - destruct (q_members q) as [|rid ?]; [by right|]. left.
+    destruct hs as [|e hs0]; [done|]. by rewrite (Hcc e hs0).
+  - destruct (q_members q) as [|rid ?]; [by right|]. destruct (q_addrs q) as [|t ?]; [by right|]. left.
+    destruct hs as [|e hs0]; [done|]. by rewrite (Hcc e hs0).
+Qed.
+
+(** ** the boolean form of [init_ok] evaluated on every replayed run (FleetRun.init_okb) is sound *)
+Lemma forallb_map_to_list {K A} `{Countable K} (f : K * A → bool) (m : gmap K A) :
+  forallb f (map_to_list m) = true → ∀ k x, m !! k = Some x → f (k, x) = true.
+Proof.
+  intros Hall k x Hk. rewrite forallb_forall in Hall. apply Hall. apply elem_of_list_In. by apply elem_of_map_to_list.
+Qed.
+
+Lemma NoDup_snd_inj (M : gmap N N) r1 r2 a :
+  NoDup ((map_to_list M).*2) → M !! r1 = Some a → M !! r2 = Some a → r1 = r2.
+Proof.
+  intros Hnd H1 H2. apply elem_of_map_to_list in H1, H2.
+  assert (Hgen : ∀ l : list (N * N), NoDup (l.*2) → (r1, a) ∈ l → (r2, a) ∈ l → r1 = r2).
+  { clear. intros l. induction l as [|[k b] l IH]; intros Hnd H1 H2; [by apply elem_of_nil in H1|].
+    cbn in Hnd. apply NoDup_cons in Hnd as [Hnotin Hnd].
+    apply elem_of_cons in H1 as [E1|H1]; apply elem_of_cons in H2 as [E2|H2].
+    - congruence.
+    - injection E1 as -> ->. exfalso. apply Hnotin. apply elem_of_list_fmap. by exists (r2, b).
+    - injection E2 as -> ->. exfalso. apply Hnotin. apply elem_of_list_fmap. by exists (r1, b).
+    - by apply IH. }
+  by apply (Hgen (map_to_list M)).
+Qed.
+
+Lemma entry_okb_sound n M : entry_okb n M = true → mem_ok n M.
+Proof.
+  unfold entry_okb. intros H. apply andb_true_iff in H as [H H3]. apply andb_true_iff in H as [H1 H2].
+  apply bool_decide_eq_true in H1, H2, H3. split; [lia|]. intros r1 r2 a. by apply NoDup_snd_inj.
+Qed.
+
+Theorem init_okb_sound st : init_okb st = true → init_ok st.
+Proof.
+  unfold init_okb. intros H.
+  repeat (apply andb_true_iff in H as [H ?]).
+  rename H0 into Hkill, H1 into Hout, H2 into Hreq, H3 into Hhosts, H4 into Hsync, H5 into Hview, H6 into Hsh, H7 into Hdef, H8 into Hdl.
+  apply negb_true_iff in H. apply N.eqb_eq in Hdl. apply bool_decide_eq_true in Hkill, Hout, Hreq.
+  split; try done.
+  - intros s [sd Hs]. pose proof (forallb_map_to_list _ _ Hdef s sd Hs) as Hx. by apply bool_decide_eq_true in Hx.
+  - intros s h Hs. pose proof (forallb_map_to_list _ _ Hsh s h Hs) as Hx. cbn [fst snd] in Hx.
+    destruct h as [|e [|? ?]]; try done. destruct (d_shards (f_db st) !! s) as [sd|]; [|done].
+    destruct (d_view (f_db st) !! s) as [c|]; [|done].
+    repeat (apply andb_true_iff in Hx as [Hx ?]). apply N.eqb_eq in Hx. apply bool_decide_eq_true in H2.
+    exists sd, e, c. split; [done|]. split; [done|]. split; [done|]. split; [done|]. split; [done|].
+    split; [by apply entry_okb_sound|].
+    intros rid Hm. apply is_member_true in Hm as [a Ha].
+    pose proof (forallb_map_to_list _ _ H0 rid a Ha) as Hy. by apply bool_decide_eq_true in Hy.
+  - intros s c Hc. pose proof (forallb_map_to_list _ _ Hview s c Hc) as Hx. cbn [fst snd] in Hx.
+    repeat (apply andb_true_iff in Hx as [Hx ?]). apply bool_decide_eq_true in Hx. apply N.eqb_eq in H1.
+    split; [done|]. split; [done|]. intros rid n Hn. pose proof (forallb_map_to_list _ _ H0 rid n Hn) as Hy. cbn in Hy.
+    apply andb_true_iff in Hy as [Hy1 Hy2]. apply N.eqb_eq in Hy1, Hy2. done.
+  - intros a h Ha. pose proof (forallb_map_to_list _ _ Hsync a h Ha) as Hx. cbn [fst snd] in Hx.
+    apply andb_true_iff in Hx as [Hx1 Hx2]. apply N.eqb_eq in Hx1. split; [done|].
+    intros s c Hc Hin. pose proof (forallb_map_to_list _ _ Hx2 s c Hc) as Hy. cbn in Hy.
+    apply orb_true_iff in Hy as [Hy|Hy]; [|by apply bool_decide_eq_true in Hy].
+    apply negb_true_iff, bool_decide_eq_false in Hy. done.
+  - intros a fh k lr Ha Hk. pose proof (forallb_map_to_list _ _ Hhosts a fh Ha) as Hx. cbn [fst snd] in Hx.
+    repeat (apply andb_true_iff in Hx as [Hx ?]).
+    pose proof (forallb_map_to_list _ _ Hx k lr Hk) as Hy. cbn [fst snd] in Hy.
+    destruct (f_hist st !! k.1) as [[|e [|? ?]]|]; try done. apply andb_true_iff in Hy as [Hy1 Hy2]. apply N.eqb_eq in Hy2.
+    by exists e.
+  - intros a fh Ha. pose proof (forallb_map_to_list _ _ Hhosts a fh Ha) as Hx. cbn [fst snd] in Hx.
+    repeat (apply andb_true_iff in Hx as [Hx ?]). apply bool_decide_eq_true in H0, H1. done.
+Qed.
